@@ -70,6 +70,34 @@ BreakLines == Inspections \cup Commands0
 EditLines == Edits \cup Probes \cup Commands0 \cup { B("LIST") }
 InputKernels == {k \in Kernels : k.name \in {"input", "input2", "input3", "inputfail", "stop"}}
 
+(***************************************************************************)
+(* The statement x position matrix: every statement kind in every syntactic *)
+(* position a statement can take -- alone on its line, between two others,  *)
+(* as the whole THEN clause (with and without an ELSE behind it), as the    *)
+(* ELSE clause, and as the first of several statements after THEN.          *)
+(* Line 5 sets the scene (a value, a loop to close, data to read, a         *)
+(* function), line 20 shows what happened, 100 is a subroutine.             *)
+(***************************************************************************)
+MStmts == { [n |-> "print", s |-> B("PRINT \"S\";")], [n |-> "let", s |-> B("X=X+1")], [n |-> "stop", s |-> B("STOP")],
+            [n |-> "end", s |-> B("END")], [n |-> "goto", s |-> B("GOTO 20")], [n |-> "gosub", s |-> B("GOSUB 100")],
+            [n |-> "return", s |-> B("RETURN")], [n |-> "for", s |-> B("FOR J=1 TO 2")], [n |-> "next", s |-> B("NEXT I")],
+            [n |-> "input", s |-> B("INPUT X")], [n |-> "read", s |-> B("READ A,B$")], [n |-> "restore", s |-> B("RESTORE")],
+            [n |-> "dim", s |-> B("DIM B(2)")], [n |-> "def", s |-> B("DEF G(Y)=Y+X")], [n |-> "rem", s |-> B("REM r")],
+            [n |-> "data", s |-> B("DATA 9")], [n |-> "if", s |-> B("IF X THEN PRINT \"T\";")], [n |-> "call", s |-> B("PRINT F(2);")],
+            [n |-> "empty", s |-> <<>>] }
+MCtxs == { [n |-> "alone", a |-> B("10 "), z |-> <<>>],
+           [n |-> "mid", a |-> B("10 PRINT \"a\";:"), z |-> B(":PRINT \"z\";")],
+           [n |-> "then", a |-> B("10 IF X THEN "), z |-> <<>>],
+           [n |-> "thenelse", a |-> B("10 IF X THEN "), z |-> B(" ELSE PRINT \"e\";")],
+           [n |-> "else", a |-> B("10 IF 0 THEN PRINT \"t\"; ELSE "), z |-> <<>>],
+           [n |-> "thenmore", a |-> B("10 IF X THEN "), z |-> B(":PRINT \"m\";")] }
+MatrixKernels == { [name |-> st.n \o "_" \o cx.n,
+                    lines |-> << B("5 X=1:DEF F(Y)=Y*2:DATA 1,d,2,e:FOR I=1 TO 2"), cx.a \o st.s \o cx.z,
+                                 B("20 PRINT \"|\";X;I:IF I<2 THEN NEXT I"), B("30 END"), B("100 PRINT \"sub\";:RETURN") >>]
+                   : st \in MStmts, cx \in MCtxs }
+RunCont == { B("RUN"), B("CONT") }
+MatrixInputKernels == {k \in MatrixKernels : \E cx \in MCtxs : k.name = "input_" \o cx.n}
+
 \* Kernels that drive the caps of C16: frames by GOSUB and by function recursion, 33 FOR
 \* variables, a FOR re-entered by GOTO 40 times, DIM at and beyond 10000 cells, implicit
 \* arrays of 1..5 dimensions, and every write path offered the wrong kind.
